@@ -90,6 +90,7 @@ func vh_C16_redirect_pair() {
 var vOffsiteSlashes = regexp.MustCompile("^[\\x00-\\x20]*[/\\\\][\\t\\n\\r]*[/\\\\]")
 var vOffsiteScheme = regexp.MustCompile("^[\\x00-\\x20]*[A-Za-z]([A-Za-z0-9+.-]|[\\t\\n\\r])*:")
 
+// what the relative-path rule accepts never leaves the origin under browser URL parsing; plain paths are accepted
 // verif: unwind=6 strlen=12 upgrade
 func vh_C06_rel() {
 	v := NewValidator(nil)
